@@ -9,6 +9,7 @@ every block an ancestor links (`read_at_commit_replays_every_ancestor_once`): ex
 import DefraModel.Proofs.CrdtVersioned
 import DefraModel.Proofs.CrdtVersionedComplete
 import DefraModel.Proofs.CrdtVersionedSound
+import DefraModel.Props.C01
 namespace Defra.Props.C03
 open Defra Defra.Crdt
 
@@ -44,6 +45,23 @@ theorem read_at_commit_is_the_state_of_that_commit (cx : Ctx) (hwf : wfCheck3 cx
     (c : Block) (hc : cx.blocks.get? c.id = some c) (hck : c.kind = .comp) :
     versionedVals cx.blocks c.id = ((mergeDoc cx {} c).doc c.doc).vals :=
   versioned_eq_delivered cx (wfCheck3_sound cx.blocks hwf) hknown c hc hck
+
+/-- **the read at the commit a replica stands at is what the replica shows now.** A replica starts empty and is
+    delivered any stored commits in any order; if what it has merged of a document is what a delivery of `c` alone
+    merges (its heads reach exactly the ancestors-or-self of `c`: `c` is its latest commit), then the versioned read at
+    `c` and the ordinary read of the document agree on every value. Time travel to "now" is the identity — the two
+    fetchers, which share no code, must agree there. -/
+theorem read_at_the_current_commit_is_the_current_state (cx : Ctx) (hwf : wfCheck3 cx.blocks = true)
+    (hknown : ∀ l, (cx.blocks.get? l).isSome = true → cx.known l = true) (cs : List Block)
+    (h : ∀ c ∈ cs, cx.blocks.get? c.id = some c ∧ c.kind = .comp)
+    (c : Block) (hc : cx.blocks.get? c.id = some c) (hck : c.kind = .comp)
+    (same : ∀ t, Reach cx.blocks ((cs.foldl (mergeDoc cx) {}).doc c.doc).heads t ↔
+      Reach cx.blocks ((mergeDoc cx {} c).doc c.doc).heads t) :
+    versionedVals cx.blocks c.id = ((cs.foldl (mergeDoc cx) {}).doc c.doc).vals := by
+  rw [read_at_commit_is_the_state_of_that_commit cx hwf hknown c hc hck]
+  have := Props.C01.same_commits_same_document cx hwf hknown c.doc cs [c] h
+    (fun b hb => by rw [List.mem_singleton.mp hb]; exact ⟨hc, hck⟩) (by simpa using same)
+  simpa using this.symm
 
 /-- hence a counter read at a commit is the sum of the replayed increments, one term per block -/
 theorem counter_at_commit (bs : Blocks) (c : Nat) (f : String) :
